@@ -210,14 +210,43 @@ def status_rules(rep, prog):
         for _bi, _si, s in b.stmts():
             if s["k"] == "Assign" and s["rv"]["k"] in ("BinaryOp", "UnaryOp") and s["rv"].get("ty") == "u8":
                 ops.add(s["rv"]["op"])
-    bitwise = ops <= {"BitAnd", "BitOr", "Not", "Eq", "Ne"}
-    rep.inst("C03.D4", "status(): outcodes (u8) are combined with bitwise operators and compared with 0 only %s: %s" % (sorted(ops), bitwise), config=cfg)
+    # the u8 operations status() performs: bitwise folds, and comparisons whose outcome on an outcode combination 1..63 does not depend on
+    # WHICH non-zero value it is (== 0, != 0, >= 1, 1..=255 ...). Such a function of the three outcodes is decided by its values on the
+    # outcode triples of any two planes; it is evaluated on two pairs (the lowest and the highest bits) so that a mask is seen too.
+    bad_ops = []
+    for b in fam:
+        bsl_ = T.Slicer(b)
+        for _bi, _si, s in b.stmts():
+            if s["k"] != "Assign" or s["rv"]["k"] not in ("BinaryOp", "UnaryOp") or s["rv"].get("ty") != "u8":
+                continue
+            op = s["rv"]["op"]
+            if op in ("BitAnd", "BitOr", "Not"):
+                for side in ("a", "b"):
+                    k_ = (s["rv"].get(side) or {}).get("k")
+                    if k_ is not None and isinstance(k_.get("v"), int) and k_["v"] not in (0, 255):
+                        bad_ops.append("%s with the constant %d (a mask)" % (op, k_["v"]))
+                continue
+            if op in ("Eq", "Ne", "Lt", "Le", "Gt", "Ge"):
+                ka, kb = (s["rv"]["a"].get("k") or {}), (s["rv"]["b"].get("k") or {})
+                c, left = (kb.get("v"), False) if isinstance(kb.get("v"), int) else ((ka.get("v"), True) if isinstance(ka.get("v"), int) else (None, False))
+                if c is None:
+                    bad_ops.append("%s between two computed values" % op)
+                    continue
+                f = {"Eq": lambda x, y: x == y, "Ne": lambda x, y: x != y, "Lt": lambda x, y: x < y, "Le": lambda x, y: x <= y,
+                     "Gt": lambda x, y: x > y, "Ge": lambda x, y: x >= y}[op]
+                outcomes = {(f(c, x) if left else f(x, c)) for x in range(1, 64)}
+                if len(outcomes) != 1:
+                    bad_ops.append("%s against %d (tells non-zero outcode sets apart)" % (op, c))
+                continue
+            bad_ops.append(op)
+    bitwise = not bad_ops
+    rep.inst("C03.D4", "status(): outcodes (u8) are combined with bitwise operators and zero tests only %s: %s" % (sorted(ops), bitwise), config=cfg)
     adt = prog.adt(CLIPVERT)
     names = adt["variants"][0]["fields"]
     from . import symalg as S_
     table = {}
     bad = 0
-    for codes in itertools.product([0, 1, 2, 3], repeat=3):
+    for codes in list(itertools.product([0, 1, 2, 3], repeat=3)) + list(itertools.product([0, 16, 32, 48], repeat=3)):
         it = S_.interp(prog)        # iterator chains, folds and plain loops alike
         vs = ("array", [("adt", CLIPVERT, "ClipVert", [c if n == "outcode" else A.UNKNOWN for n in names]) for c in codes])
         cell = A.Frame(None)
@@ -236,10 +265,10 @@ def status_rules(rep, prog):
             if bad <= 3:
                 rep.violate("C03.D4", "D4|status|%s" % want, st.where(),
                             "status() of vertices with outcodes %s is %s, expected %s" % (list(codes), got, want), config=cfg)
-    rep.inst("C03.D4", "status() evaluated on all 64 outcode triples over two planes: %d mismatches" % bad, config=cfg)
+    rep.inst("C03.D4", "status() evaluated on all outcode triples over two pairs of planes (2 x 64): %d mismatches" % bad, config=cfg)
     if not bitwise:
         rep.violate("C03.D4", "D4|fold-not-bitwise", st.where(),
-                    "status() folds outcodes with non-bitwise operators %s: the two-plane evaluation does not generalise" % sorted(ops), config=cfg)
+                    "status() treats outcodes with operations beyond bitwise folds and zero tests (%s): the two-plane evaluation does not generalise" % bad_ops[:3], config=cfg)
 
 
 def must_clear_param(prog, body, n):
@@ -541,14 +570,40 @@ def lerp_law(rep, prog):
             rep.violate("C03.D6", "D6|lerp|tuple", tl.where(), "tuple Lerp does not interpolate both members by the same affine law", config=cfg)
 
 
+def clip_behaviour_rules(rep, prog):
+    """D1 / D2 / D3 / D5 by interpreting the three layers of the clipper (sa/clip_sem.py); these replaced the shape rules clip_loop_rules /
+    lerp_rules, which fired on behaviour-preserving rewrites (DESIGN 8.13)."""
+    from . import clip_sem as CS
+    cfg = prog.config
+    where = prog.body(CS.CLIP_FN).where()
+    try:
+        n, f_plane = CS.plane_layer(prog)
+        f_planes = CS.planes_layer(prog)
+        f_batch = CS.batch_layer(prog)
+    except A.Undecided as e:
+        raise common.Infra("C03: the clipper could not be interpreted (%s%s)" % (e, ("; in " + " < ".join(x for x in getattr(e, "stack", []) if not x.startswith("  "))[:200]) if getattr(e, "stack", None) else ""))
+    rule_of = {"plane|keep-inside": "D3", "plane|interpolation": "D3", "plane|vertex-list": "D3", "plane|panic": "D3", "planes|hand-over": "D2", "planes|panic": "D2",
+               "batch|visible-changed": "D1", "batch|hidden-emits": "D1", "batch|needless-clip": "D1", "batch|scratch-in": "D2", "batch|scratch-out": "D2",
+               "batch|fan": "D5", "batch|order": "D5", "batch|panic": "D1"}
+    allf = f_plane + f_planes + f_batch
+    for rule, txt in (("D1", "a Visible triangle comes out unchanged without clipping, a Hidden one emits nothing"),
+                      ("D2", "every plane step gets exactly the previous result / the triangle's own vertices and an empty output (batch independence)"),
+                      ("D3", "per-plane clip in %d sign scenarios: inside vertices as given, one vertex per strictly crossing edge with position and attribute a + t (b - a), "
+                             "t = -d_a / (d_b - d_a) (rational identities)" % n),
+                      ("D5", "a clipped polygon q0..qn comes out as the fan (q0, qi, qi+1) in order")):
+        rep.inst("C03." + rule, "%s: %s" % (txt, not any(rule_of.get(k) == rule for k, _m in allf)), config=cfg)
+    for key, msg in allf:
+        rule = rule_of.get(key, "D1")
+        rep.violate("C03." + rule, "%s|%s" % (rule, key.split("|", 1)[1]), where, msg, config=cfg)
+
+
 def check_config(rep, prog):
     rep.guard(lerp_law, rep, prog)
     planes = rep.guard(table_rules, rep, prog)
     if planes is not common.SKIPPED:
         rep.guard(plane_fn_rules, rep, prog, planes)
     rep.guard(status_rules, rep, prog)
-    rep.guard(clip_loop_rules, rep, prog)
-    rep.guard(lerp_rules, rep, prog)
+    rep.guard(clip_behaviour_rules, rep, prog)
 
 
 def check(rep, args):
